@@ -272,6 +272,51 @@ def run_shard(spec):
                         samples.append({"case": desc, "expr": str(e), "expected": sorted(map(str, expected))})
                     if len(violations) >= 12:
                         break
+    # ---- two DIFFERENT locations in two slots of one node (incl. refs whose hashes collide) ----
+    M61 = 2 ** 61 - 1
+    d["h"] = {0: 1.0, M61: 2.0, -1: 3.0, -2: 4.0}
+    rh = I(r, "h", m)
+    PAIRS = [
+        ("neg-index-hash-collision", lambda: (r["l"][-1], r["l"][-2]), {rl, I(rl, -1, m), I(rl, -2, m)}),
+        ("int-key-hash-collision", lambda: (r["h"][0], r["h"][M61]), {rh, I(rh, 0, m), I(rh, M61, m)}),
+        ("dict-neg-key-hash-collision", lambda: (r["h"][-1], r["h"][-2]), {rh, I(rh, -1, m), I(rh, -2, m)}),
+        ("equal-valued", lambda: (r["a"], r["n"]["y"]), {ra, rn, I(rn, "y", m)}),
+        ("same-key-other-owner", lambda: (r["n"]["x"], r["h"][0]), {rn, I(rn, "x", m), rh, I(rh, 0, m)}),
+        ("item-vs-attr", lambda: (r["o"].p, r["a"]), {ro, A(ro, "p", m), ra}),
+    ]
+    counters["pair_leaves_with_equal_hash"] = sum(1 for _, mk, _ in PAIRS if hash(mk()[0]) == hash(mk()[1]))
+    pair_recipes = [(c.__name__ + ".lhs+rhs", lambda x, y, c=c: c(x, y), set()) for c in bins]
+    pair_recipes += [
+        ("BuiltinRef.arg+param", lambda x, y: R.BuiltinRef(x, builtins.divmod, (y,)), set()),
+        ("BuiltinRef.two-params", lambda x, y: R.BuiltinRef(r["b"], builtins.pow, (x, y)), {rb}),
+        ("CallRef.two-args", lambda x, y: R.CallRef(f.f, (x, y), {}), {ff}),
+        ("CallRef.arg+kwarg", lambda x, y: R.CallRef(f.f, (x,), {"y": y}), {ff}),
+        ("CallRef.two-kwargs", lambda x, y: R.CallRef(f.f, (), {"y": x, "z": y}), {ff}),
+        ("ItemRef.owner+key", lambda x, y: R.ItemRef(R.ItemRef(r["l"], x, m), y, m), "self2"),
+    ]
+    pair_wrappers = [w for w in wrappers if w[0] in ("direct", "plus1", "neg-mul", "abs", "call")]
+    for rname, build2, extra in pair_recipes:
+        for pname, mk, pdeps in PAIRS:
+            for wname, wf, wextra in pair_wrappers:
+                for swap in (False, True):
+                    x, y = mk()
+                    if swap:
+                        x, y = y, x
+                    desc = [rname, pname, wname + ("/swapped" if swap else "")]
+                    try:
+                        e = build2(wf(x), wf(y))
+                    except Exception:
+                        counters["python_rejects_at_build"] = counters.get("python_rejects_at_build", 0) + 1
+                        continue
+                    expected = set(pdeps) | set(wextra)
+                    if extra == "self2":
+                        expected |= {e, e._owner, rl}
+                    else:
+                        expected |= set(extra)
+                    counters["pair_cases"] = counters.get("pair_cases", 0) + 1
+                    check(desc, e, expected)
+            if len(violations) >= 12:
+                break
     # expressions over a bare top-level container
     for name, mk in [("neg-container", lambda: -r), ("container+1", lambda: r + 1), ("abs-container", lambda: abs(r)),
                      ("container-call", lambda: r(1)), ("round-container", lambda: round(r))]:
